@@ -302,6 +302,17 @@ def loader_unit(res):
     return res
 
 
+def _isa_db_units():
+    """entries of the ISA databases must also survive the loader's operand conversion (a register given as a mapping inside a
+    memory operand: the hidden stack access of push / pop) and carry operation strings that can be evaluated: units of C07 / C06"""
+    from .c07 import operand_to_class_unit
+    from .c06 import reg_changes_unit
+    ISAF = "osaca/semantics/isa_semantics.py"
+    return [Unit("C15/operand_to_class(every operand shape of the model and ISA files)", operand_to_class_unit, "P", [(HW, "MachineModel.operand_to_class")], decisive=False),
+            Unit("C15/ISA-DB operations can be evaluated/x86", reg_changes_unit("x86"), "P", [(ISAF, "ISASemantics.get_reg_changes")], decisive=False),
+            Unit("C15/ISA-DB operations can be evaluated/aarch64", reg_changes_unit("aarch64"), "P", [(ISAF, "ISASemantics.get_reg_changes")], decisive=False)]
+
+
 def _run_dispatch():
     from .c13 import run_dispatch_unit
     return run_dispatch_unit
@@ -316,6 +327,7 @@ def units(tier):
         Unit("C15/average_port_pressure/exception-freedom-under-wf", avg_unit, "P", [(HW, "MachineModel.average_port_pressure")]),
         Unit("C15/average_port_pressure/Pb-floor", avg_pb_unit, "Pb", [(HW, "MachineModel.average_port_pressure")]),
         Unit("C15/_handle_instruction_found", handle_found_unit, "P", [(AS, "ArchSemantics._handle_instruction_found")]),
+    ] + _isa_db_units() + [
         Unit("C15/run(--db-check reaches sanity_check)", _run_dispatch(), "P", [("osaca/osaca.py", "run")], decisive=False),
         Unit("C15/MachineModel.__init__(loader: entries, aliases, tables)", loader_unit, "Pb", [(HW, "MachineModel.__init__")]),
         Unit("C15/_get_sanity_report+sanity_check(counts shown = list lengths)", sanity_report_unit, "P", [(DBI, "_get_sanity_report"), (DBI, "sanity_check")]),
